@@ -1026,6 +1026,11 @@ fn convert_morphology(fe: SvgNode, scale: Size, primitives: &[Primitive]) -> Kin
             ry = list[0]; // The same as `rx`.
         }
 
+        // With `primitiveUnits=objectBoundingBox` the values are fractions of the bounding box.
+        // Resolve them first, so that the fallbacks below apply to the actual radius.
+        rx *= scale.width();
+        ry *= scale.height();
+
         if rx.approx_zero_ulps(4) && ry.approx_zero_ulps(4) {
             rx = 1.0;
             ry = 1.0;
@@ -1043,10 +1048,7 @@ fn convert_morphology(fe: SvgNode, scale: Size, primitives: &[Primitive]) -> Kin
         // Both values must be positive.
         if rx.is_sign_positive() && ry.is_sign_positive() {
             // Scaled values can still be too large.
-            if let (Some(rx), Some(ry)) = (
-                PositiveF32::new(rx * scale.width()),
-                PositiveF32::new(ry * scale.height()),
-            ) {
+            if let (Some(rx), Some(ry)) = (PositiveF32::new(rx), PositiveF32::new(ry)) {
                 radius_x = rx;
                 radius_y = ry;
             }
